@@ -4,6 +4,7 @@ use std::io::Write;
 
 mod c01;
 pub mod c07;
+pub mod c04;
 mod c09;
 pub mod c10;
 
@@ -14,6 +15,7 @@ pub fn generate(suite: &str, tier: &str, seed: u64) -> Vec<String> {
         "c01" => c01::generate(&mut rng, thorough),
         "c07" => c07::generate(&mut rng, thorough),
         "c09" => c09::generate_c09(&mut rng, thorough),
+        "c04" => c04::generate(&mut rng, thorough),
         "c06" => c09::generate_c06(&mut rng, thorough),
         "c10" => c10::generate(&mut rng, thorough),
         _ => panic!("unknown suite {suite}"),
@@ -22,6 +24,9 @@ pub fn generate(suite: &str, tier: &str, seed: u64) -> Vec<String> {
 
 pub fn eval_more(t: &[&str]) -> String {
     if let Some(s) = c01::eval(t) {
+        return s;
+    }
+    if let Some(s) = c04::eval(t) {
         return s;
     }
     if let Some(s) = c09::eval(t) {
